@@ -120,7 +120,7 @@ def _swallowing_handlers(ctx):
     return out
 
 
-def rule_2(ctx):
+def _rule_2_handlers(ctx):
     hs = _swallowing_handlers(ctx)
     for m, qual, fn, h, k, types in hs:
         key = (m.name, qual, k)
@@ -159,7 +159,35 @@ def rule_2(ctx):
 PARTIAL_OPS = (ast.Pow, ast.Div, ast.Mod, ast.FloorDiv)
 
 
-def rule_3(ctx, only_ops=None):
+def rule_2(ctx):
+    """Aggregating functions as the evaluator calls them: an error value among the arguments of a var-positional parameter, or
+    inside an array argument, is the result (the IS*/COUNT family and CHOOSE, which selects one argument, excepted)."""
+    from . import values as V
+    from xlsa.guards import ExcRaised
+
+    def nodate(*a, **k):
+        raise ExcRaised(Ref('builtin:ValueError'))
+    models = {'ext:dateutil.parser.parse': nodate}
+    models.update(V.numpy_models())
+    exempt = {'COUNT', 'COUNTA', 'CHOOSE', 'ISERROR', 'ISERR', 'ISNA', 'AND', 'OR', 'SUMIFS', 'COUNTIFS', 'SUMPRODUCT'}
+    n = 0
+    for f in ctx.a.registry:
+        vp = [p for p in f.params if p.kind == 'varpos']
+        if not vp or not f.validated or f.name in exempt:
+            continue
+        pos = [p for p in f.params if p.kind == 'pos' and p.default is None]
+        for label, mk in (('an error among the arguments', lambda e: [V.num(2), e, V.num(3)]),
+                          ('an error inside an array argument', lambda e: [V.array([[V.num(2), e]])])):
+            err = V.error(ctx, 'NaExcelError')
+            out = V.call(ctx, f.name, [V.num(1) for _ in pos] + mk(err), models=models)
+            n += 1
+            ctx.expect(out.end == 'return' and out.value is err, f.node, f'{f.name}: {label} is the result',
+                       f'{f.name} called with {label} (#N/A) gives {out.end} {V.norm(out.value)!r}: the error is dropped or replaced on the way '
+                       '(items of Tuple[...] parameters are converted one by one and failures and error values are filtered out)')
+    ctx.floor(12, 'aggregating functions x (scalar item, array item)')
+
+
+def _rule_3_native_ops(ctx, only_ops=None):
     m = ctx.mod('xlfunctions.func_xltypes')
     n = 0
     for qual, fn in m.funcs.items():
@@ -196,6 +224,49 @@ def rule_3(ctx, only_ops=None):
                            f'native {opn} on converted operands is neither guarded nor enclosed by a handler that '
                            f'converts the Python exception into an Excel error: {fails}')
     ctx.floor(2 if only_ops is None else 1, 'partial native operations in the arithmetic dunders')
+
+
+def rule_3(ctx, only_ops=None):
+    """The operators as the evaluator calls them (registered objects, value classes as written; numpy.power on objects = the
+    class's own **) on every ordered pair of scalar operand kinds incl. the hazardous ones (zero, negative, huge, non-numeric
+    text, blank, boolean): the outcome is a value or an Excel error value - never a Python-level exception."""
+    from . import values as V
+    from xlsa.guards import ExcRaised
+
+    def nodate(*a, **k):
+        raise ExcRaised(Ref('builtin:ValueError'))
+    models = {'ext:dateutil.parser.parse': nodate}
+    models.update(V.numpy_models())
+    vals = [('3', V.num(3)), ('0', V.num(0)), ('-8', V.num(-8)), ('0.5', V.num(0.5)), ('-1', V.num(-1)), ('10.5', V.num(10.5)), ('400', V.num(400)),
+            ('"3"', V.text('3')), ('"0.0"', V.text('0.0')), ('"x"', V.text('x')), ('""', V.text('')), ('TRUE', V.boolean(True)), ('FALSE', V.boolean(False)),
+            ('blank', V.blank())]
+    ops = [('OP_ADD', '+'), ('OP_SUB', '-'), ('OP_MUL', '*'), ('OP_DIV', '/'), ('POWER', '^'), ('CONCAT', '&'), ('OP_EQ', '='), ('OP_NE', '<>'),
+           ('OP_LT', '<'), ('OP_LE', '<='), ('OP_GT', '>'), ('OP_GE', '>=')]
+    if only_ops is not None:
+        ops = [o for o in ops if o[0] in ('OP_DIV',)]
+    for name, sym in ops:
+        f = V.registered(ctx, name)
+        raised = {}
+        for la, a in vals:
+            for lb, b in vals:
+                out = V.call(ctx, name, [a, b], models=models)
+                bad = out.end == 'raise' or (out.end == 'return' and isinstance(out.value, complex))
+                if bad:
+                    kind = out.value.ref.rpartition(':')[2] if isinstance(out.value, Ref) else type(out.value).__name__
+                    raised.setdefault(kind, []).append(f'{la}{sym}{lb}')
+        if name == 'POWER':
+            # one obligation per kind of failure, so that a known one does not hide another
+            for kind in ('ZeroDivisionError', 'OverflowError', 'complex', 'TypeError', 'ValueError', 'AttributeError'):
+                ctx.expect(kind not in raised, f.node, f'^ never ends in {kind}',
+                           f'{", ".join(raised.get(kind, [])[:5])} end{"s" if len(raised.get(kind, [])) == 1 else ""} in a Python-level {kind} instead '
+                           'of a value or an Excel error value (0^-1 is #DIV/0!, 10.5^400 and (-8)^0.5 are #NUM! in Excel)')
+            other = {k: v for k, v in raised.items() if k not in ('ZeroDivisionError', 'OverflowError', 'complex', 'TypeError', 'ValueError', 'AttributeError')}
+            ctx.expect(not other, f.node, '^ never ends in another Python exception', f'{other}')
+        else:
+            ctx.expect(not raised, f.node, f'{sym} never ends in a Python exception',
+                       '; '.join(f'{k}: {", ".join(v[:4])}' for k, v in raised.items()) + ' - operators must return a value or an Excel error value '
+                       'for operands of every scalar type')
+    ctx.floor(1 if only_ops is not None else 12, 'operators x operand kinds')
 
 
 def opn_is_div(b):
